@@ -126,11 +126,21 @@ def r08b(chk, rid='R08.b'):
             ok = isinstance(par, ast.If) and text(par.test) == guard and f2.body.index(par) < f2.body.index(setter[0].stmt)
         chk.ob(rid, SHEET, 'CSSStyleSheet._setCssTextWithEncodingOverride', f'{attr} is stored before the text is parsed', ok, 'imports resolved while parsing do not see it')
     f3 = chk.repo.fn(SHEET, 'CSSStyleSheet._resolveImport')
-    calls = [c for c in ast.walk(f3) if isinstance(c, ast.Call) and call_name(c) == '_readUrl']
-    ok = len(calls) == 1 and text(kw(calls[0], 'overrideEncoding')) == 'self.__encodingOverride' and text(kw(calls[0], 'parentEncoding')) == 'parentEncoding' and text(kw(calls[0], 'fetcher')) == 'self._fetcher'
-    chk.ob(rid, SHEET, 'CSSStyleSheet._resolveImport', 'passes the stored override, the parent encoding and the sheet\'s fetcher to _readUrl', ok, '')
-    src = ast.unparse(f3)
-    chk.ob(rid, SHEET, 'CSSStyleSheet._resolveImport', 'parent encoding = encoding being parsed, else the @charset rule, else None', 'parentEncoding = self.__newEncoding' in src and 'parentEncoding = self._cssRules[0].encoding' in src and 'parentEncoding = None' in src, '', shape=True)
+    from sa.absint import Evaluator, Obj, Raised
+
+    sm = chk.repo.mod(SHEET)
+    for label, attrs, want_parent in (
+        ('while a sheet text is being parsed', {'__newEncoding': 'new', '_cssRules': [Obj(encoding='charset')]}, 'new'),
+        ('parsed sheet with @charset', {'_cssRules': [Obj(encoding='charset')]}, 'charset'),
+        ('parsed sheet whose first rule is no @charset', {'_cssRules': [Obj(selectorText='a')]}, None),
+        ('empty sheet', {'_cssRules': []}, None),
+    ):
+        seen = []
+        me = Obj(**{'__encodingOverride': 'ov', '_fetcher': 'the fetcher', **attrs})
+        got = Evaluator(f3, intrinsics={'_readUrl': lambda url, **k: (seen.append((url, k)), ('enc', 1, 'text'))[1]}, module=sm, cls='CSSStyleSheet').run(self=me, url='u.css')
+        want = [('u.css', {'fetcher': 'the fetcher', 'overrideEncoding': 'ov', 'parentEncoding': want_parent})]
+        chk.ob(rid, SHEET, 'CSSStyleSheet._resolveImport', f'{label}: _readUrl gets the stored override, the sheet\'s fetcher and parent encoding {want_parent!r}; its result is returned (by evaluation)',
+               seen == want and got == ('enc', 1, 'text'), f'called with {seen}, returned {got!r}')
 
 
 def r08c(chk, rid='R08.c'):
@@ -153,23 +163,51 @@ def r08c(chk, rid='R08.c'):
     rets = [r for r in ast.walk(fe) if isinstance(r, ast.Return)]
     ok = len(rets) == 1 and isinstance(rets[0].value, ast.Tuple) and text(rets[0].value.elts[1]) == 'e.end'
     chk.ob(rid, SER, '_escapecss', 'resumes after the unencodable span (e.end)', ok, 'characters are skipped or encoded twice')
-    src = ast.unparse(fe)
-    chk.ob(rid, SER, '_escapecss', 'one escape per character of e.object[e.start:e.end], terminated by a space', 's = e.object[e.start:e.end]' in src and 'for x in s' in src and "'\\\\%s ' %" in src and 'hex(ord(x))' in src, src[:200], shape=True)
-    ds = ast.unparse(m.get('CSSSerializer.do_CSSStyleSheet'))
-    chk.ob(rid, SER, 'CSSSerializer.do_CSSStyleSheet', "the target encoding is rule 0's encoding, else UTF-8", 'encoding = stylesheet.cssRules[0].encoding' in ds and "encoding = 'UTF-8'" in ds, '', shape=True)
+    from sa.absint import Evaluator, Obj, Raised, Record
+
+    n_bad = []
+    for obj, a, b in (('a\xe9b', 1, 2), ('\u20ac\U0001f600x', 0, 2), ('abc', 1, 1), ('\x7f\xff', 0, 2)):
+        got = Evaluator(fe, module=m).run(e=Record(object=obj, start=a, end=b))
+        want = (''.join('\\%X ' % ord(c) for c in obj[a:b]), b)
+        if got != want:
+            n_bad.append(f'{obj[a:b]!r} -> {got!r}, prescribed {want!r}')
+    chk.ob(rid, SER, '_escapecss', 'one upper-case hex escape per character of e.object[e.start:e.end], each terminated by a space; resumes at e.end (by evaluation)', not n_bad, '; '.join(n_bad))
+    # target encoding of the serialised sheet
+    ds = m.get('CSSSerializer.do_CSSStyleSheet')
+    K = dict(NAMESPACE_RULE=10, CHARSET_RULE=2)
+    cases = {'@charset first': ([Obj(type=2, encoding='utf-16-le', cssText='a', **K), Obj(type=1, cssText='b', **K)], 'a\nb'.encode('utf-16-le')),
+             'no @charset': ([Obj(type=1, cssText='a', **K)], b'a'), 'empty sheet': ([], b'')}
+    for label, (rules, want) in cases.items():
+        me = Record(prefs=Record(keepUsedNamespaceRulesOnly=False, lineSeparator='\n', lineNumbers=False))
+        sheet = Record(cssRules=rules, _getUsedURIs=lambda: set())
+        got = Evaluator(ds, module=m, cls='CSSSerializer').run(self=me, stylesheet=sheet)
+        chk.ob(rid, SER, 'CSSSerializer.do_CSSStyleSheet', f"{label}: the target encoding is rule 0's encoding, else UTF-8 (by evaluation)", got == want, f'{got!r}, prescribed {want!r}')
 
 
 def r08d(chk, rid='R08.d'):
     chk.rule(rid, 'the encoding attribute mirrors rule 0: the getter reads only _cssRules[0].encoding with utf-8 as fall-back; the setter changes the sheet only through the @charset rule\'s own setter, deleteRule(0) or insertRule(CSSCharsetRule, 0)')
-    g = chk.repo.fn(SHEET, 'CSSStyleSheet._getEncoding')
-    src = ast.unparse(g)
-    rets = [text(r.value) for r in ast.walk(g) if isinstance(r, ast.Return)]
-    chk.ob(rid, SHEET, 'CSSStyleSheet._getEncoding', "returns rule 0's encoding or 'utf-8'", rets == ['self._cssRules[0].encoding', "'utf-8'"] and 'except (IndexError, AttributeError)' in src, str(rets), shape=True)
-    s = chk.repo.fn(SHEET, 'CSSStyleSheet._setEncoding')
-    from .c09 import rule_list_writes
+    from sa.absint import Evaluator, Obj, Raised, Record
 
-    src = ast.unparse(s)
-    raw = [n for n in ast.walk(s) if isinstance(n, (ast.Assign, ast.Delete)) and '_cssRules' in text(n) and not text(n).startswith('rule = ')]
+    sm = chk.repo.mod(SHEET)
+    g = chk.repo.fn(SHEET, 'CSSStyleSheet._getEncoding')
+    for label, rules, want in (('@charset first', [Obj(encoding='latin-1')], 'latin-1'), ('another rule first', [Obj(selectorText='a')], 'utf-8'), ('empty sheet', [], 'utf-8')):
+        got = Evaluator(g, module=sm, cls='CSSStyleSheet').run(self=Record(_cssRules=rules))
+        chk.ob(rid, SHEET, 'CSSStyleSheet._getEncoding', f"{label}: rule 0's encoding or 'utf-8' (by evaluation)", got == want, f'{got!r}')
+    s = chk.repo.fn(SHEET, 'CSSStyleSheet._setEncoding')
+    raw = [n for n in ast.walk(s) if isinstance(n, (ast.Assign, ast.AugAssign, ast.Delete)) and any('_cssRules' in text(t) for t in (n.targets if not isinstance(n, ast.AugAssign) else [n.target]))]
+    raw += [n for n in ast.walk(s) if isinstance(n, ast.Call) and isinstance(n.func, ast.Attribute) and '_cssRules' in text(n.func.value) and n.func.attr in ('insert', 'append', 'pop', 'remove', 'clear', 'extend', 'sort', 'reverse')]
     chk.ob(rid, SHEET, 'CSSStyleSheet._setEncoding', 'no raw write to the rule list', not raw, str([text(x) for x in raw]))
-    chk.ob(rid, SHEET, 'CSSStyleSheet._setEncoding', 'existing @charset: its own setter, or deleteRule(0) for None', 'rule.encoding = encoding' in src and 'self.deleteRule(0)' in src and 'rule.CHARSET_RULE == rule.type' in src, '', shape=True)
-    chk.ob(rid, SHEET, 'CSSStyleSheet._setEncoding', 'no @charset yet: insertRule(CSSCharsetRule(encoding=...), 0)', 'self.insertRule(cssutils.css.CSSCharsetRule(encoding=encoding), 0)' in src, '', shape=True)
+    K = dict(CHARSET_RULE=2)
+    for first in ('charset', 'style', 'none'):
+        for enc in ('latin-1', None, ''):
+            log = []
+            rules = {'charset': [Obj(type=2, encoding='old', **K)], 'style': [Obj(type=1, **K)], 'none': []}[first]
+            me = Record(_cssRules=rules, deleteRule=lambda i: log.append(('deleteRule', i)), insertRule=lambda r, i=None, **k: log.append(('insertRule', r.encoding, i)))
+            res = Evaluator(s, intrinsics={'cssutils.css.CSSCharsetRule': lambda encoding=None: Obj(type=2, encoding=encoding, **K)}, module=sm, cls='CSSStyleSheet').run(self=me, encoding=enc)
+            if first == 'charset':
+                want = ([], enc) if enc else ([('deleteRule', 0)], 'old')
+                got = (log, rules[0].encoding)
+            else:
+                want = [('insertRule', enc, 0)] if enc else []
+                got = log
+            chk.ob(rid, SHEET, 'CSSStyleSheet._setEncoding', f'first rule {first}, encoding={enc!r}: only the @charset setter, deleteRule(0) or insertRule(@charset, 0) (by evaluation)', got == want and not isinstance(res, Raised), f'{got!r}, prescribed {want!r}')
